@@ -7,6 +7,8 @@ for d in sorted(glob.glob(root + '/seeded/*/')):
     m = json.load(open(d + 'meta.json'))
     star = '*' if m.get('check_strengthened_because_of_it') else ''
     caught = '; '.join('%s%s: %s' % (k, star, v) for k, v in m['caught_by'].items())
+    if m.get('obsolete'):
+        caught += ' - OBSOLETE: ' + m['obsolete']
     rows.append('| `%s` | %s | %s | %s |' % (os.path.basename(d.rstrip('/')), m['change'], m['needs_to_manifest'], caught))
 p = root + '/DESIGN.md'
 s = open(p).read()
